@@ -130,12 +130,22 @@ inline std::string run_publisher_history(vf::rng &r, std::string &trace_out, int
     H.trace = std::string("cfg(max=") + (H.maxlen ? std::to_string(H.maxlen) : std::string("inf")) + ",min=" + std::to_string(H.minlen) + ") ";
     H.subs.reserve(16);
     int len = 2 + (int)r.below(r.chance(1, 4) ? 50 : 18);
+    // long runs on ONE publisher: hundreds of values, retention windows of up to 80 values (the value container grows and is trimmed many times)
+    bool longrun = r.chance(1, 80);
+    if (longrun) {
+        len = 150 + (int)r.below(450);
+        H.subs.reserve(300);
+        if (cfg != 0) { H.minlen = 1 + r.below(40); H.maxlen = H.minlen + r.below(40); H.pub = std::make_unique<pub_t>(H.maxlen, H.minlen);
+                        H.trace = std::string("[long] cfg(max=") + std::to_string(H.maxlen) + ",min=" + std::to_string(H.minlen) + ") "; }
+        else H.trace = "[long] " + H.trace;
+    }
     auto live = [&]() { std::vector<int> v; for (size_t i = 0; i < H.subs.size(); i++) if (H.subs[i].s) v.push_back((int)i); return v; };
     // "churn" histories: subscribers come and go all the time (registration slots and object addresses are recycled), kicks are frequent
     bool churn = r.chance(1, 4);
     if (churn) H.trace += "[churn] ";
     for (int step = 0; step < len && H.err.empty(); step++) {
         uint32_t x = r.below(100);
+        if (longrun && !churn && x >= 93) x = r.below(30); // no early close in long runs, more publishing
         if (churn) { // remap: publish 12, batch 3, subscribe 25, next 25, kick 13, leave 19, close 1
             uint32_t y = r.below(100);
             x = y < 12 ? 0 : y < 15 ? 22 : y < 40 ? 30 : y < 65 ? 42 : y < 78 ? 80 : y < 97 ? 86 : y < 98 ? 93 : 99;
@@ -150,7 +160,7 @@ inline std::string run_publisher_history(vf::rng &r, std::string &trace_out, int
             std::vector<int> b; for (int i = 0; i < k; i++) b.push_back((int)(H.N + 1 + i));
             H.N += k; H.trace += "pub*" + std::to_string(k) + " ";
             H.pub->publish(b.begin(), b.end()); H.settle_parked("batch publish");
-        } else if (x < 42 && H.subs.size() < 14) { // subscribe
+        } else if (x < 42 && H.subs.size() < (longrun ? 280u : 14u)) { // subscribe
             psub_m m; m.mode = (int)r.below(3);
             uint32_t how = r.below(3);
             if (how == 0 || H.closed) { m.cur = H.N; m.s = pooled_sub(&H.pool, H.pool.make(*H.pub, pm_type(m.mode))); H.trace += std::string("sub(") + pm_name(m.mode) + ") "; }
